@@ -36,6 +36,29 @@ CLAIMS = {
  'C17': dict(cat='proof', tech='Lean 4 model of both generators; filter equality; correspondence',
    text="Model of GeneratePseudoLegalCaptures and GeneratePseudoLegalMoves; ordered lists compared; the property itself (captures == capturing "
         "moves of the full generator as multisets) asserted on the Go side for every generated position.", ref='5/C17'),
+ 'C04': dict(cat='proof', tech='Lean 4 executable model of the whole search; black-box correspondence; spec judge of answers and PVs',
+   text="Lean model of Search/SearchIterative/SearchRoot/negamax/quiescence with TT, killers, history, SEE, all pruning and int16 wrap-around, "
+        "cancellation as an oracle (n-th poll); sequences of searches sharing the tables are compared with the Go code on best move, every info "
+        "line (depth, score, nodes, PV) and poll count, with cancellation at chosen polls; the answer and every printed PV are judged by the FIDE "
+        "spec (legal sequence from the root, answer = head of the last PV, null move only without legal moves), also for Go-only searches to depth 5.",
+   ref='5/C04'),
+ 'C05': dict(cat='proof', tech='Lean 4 model of search with cancellation oracle + time budget proof; correspondence; measured wall-clock',
+   text="Cancellation at every chosen poll index is replayed in the Lean search model (same nodes, same polls); Go-side assertions: search "
+        "terminates, requested depth never exceeded, no node after the cancellation was noticed unless no iteration had completed (single depth-1 "
+        "fallback); budget below clock/movetime (C08 model); wall-clock of movetime/clock-limited searches and stop latency are measured "
+        "(not proved) in-process; terminal roots (checkmate/stalemate) are in the corpus.", ref='5/C05',
+   note='Partial with respect to the runtime: timers, scheduler and wall-clock bounds are measured with slack, not proved; termination of check-extension chains is assumed (fuel).'),
+ 'C06': dict(cat='proof', tech='Lean 4 inductive invariant of the UCI transition system (kernel-checked finite closure) + source-order facts (go/ast) + concurrent dialogues',
+   text="Labelled transition system of reader, search goroutine, flag and cancellation under a rule-obeying GUI; its reachable set is closed under "
+        "steps and satisfies the safety, no-deadlock and accepts-next invariants (kernel evaluation, lifted by induction to dialogues of any length); "
+        "the handler orderings the model depends on are extracted from the source with go/ast on every run (17 facts) and required by theorem; "
+        "concurrent dialogues (back-to-back writes, stop/isready at any time) are driven through the real line handler in-process: bestmove and "
+        "readyok counts, no deadlock, stop latency, whole output lines.", ref='5/C06',
+   note='Go scheduler fairness, channel/context semantics and write(2) atomicity are trusted; promptness is measured.'),
+ 'C13': dict(cat='proof', tech='Lean 4 executable search model; correspondence; spec judge (mate delivered) on a mate-in-one pool',
+   text="Positions with a mating move (corpus and found in playouts) are searched at depths 1-4 with cancellation at polls 0,1,2,3,.., after "
+        "earlier searches of the predecessor position filled the shared tables, and with the half-move clock at 98/99/100; the Go answer is "
+        "judged by the spec (the move played delivers checkmate) and compared with the Lean search model.", ref='5/C13'),
  'C07': dict(cat='proof', tech='Lean 4 model of tokeniser and go-parser; totality/faithfulness; correspondence',
    text="Model of removePrefixGarbage and parseGo (parametric in Atoi, including the value Atoi leaves behind on an error); grammar-directed and "
         "mutated token lists compared on parameters and canonical messages; no-panic asserted on the Go side.", ref='5/C07'),
